@@ -156,7 +156,9 @@ func newCase(t *rapid.T) *caseState {
 // drawBatch generates a batch of operations; returns ops and counters.
 func (c *caseState) drawBatch(t *rapid.T, pending map[string][]byte) (ops []op, effDel, absentDel, setDel int) {
 	var n int
-	switch rapid.IntRange(0, 9).Draw(t, "sizeclass") {
+	switch rapid.IntRange(0, 10).Draw(t, "sizeclass") {
+	case 10:
+		n = 0 // an empty batch: a speculative or committing root computation on a clean store
 	case 0, 1, 2:
 		n = rapid.IntRange(1, 15).Draw(t, "n")
 	case 3, 4, 5:
@@ -171,7 +173,11 @@ func (c *caseState) drawBatch(t *rapid.T, pending map[string][]byte) (ops []op, 
 		_, inState := pending[string(k)]
 		switch x := rapid.IntRange(0, 9).Draw(t, "opkind"); {
 		case x < 6:
-			v := rapid.SliceOfN(rapid.Byte(), 1, 6).Draw(t, "v")
+			// empty values are real state (the state machine stores nil for committee / delegate membership keys)
+			v := []byte{}
+			if rapid.IntRange(0, 6).Draw(t, "emptyv") != 0 {
+				v = rapid.SliceOfN(rapid.Byte(), 1, 6).Draw(t, "v")
+			}
 			ops = append(ops, op{k: k, v: v})
 			pending[string(k)] = v
 		case x < 9:
@@ -318,6 +324,7 @@ func TestC08Store(t *testing.T) {
 			ec.ClassIf(parallel, "parallel-batch")
 			ec.ClassIf(!parallel, "sequential-batch")
 			ec.ClassIf(pendingOps >= 15 && pendingOps <= 17, "threshold-batch(15..17 ops)")
+			ec.ClassIf(len(ops) == 0, "empty-batch")
 			want := sm.Root(pending)
 			if mode == "root+commit" || mode == "root+reset" {
 				r, err := s.Root()
